@@ -223,6 +223,7 @@ fn main() {
     // the parsers never see a fixed-size buffer, so their unoptimised batch runs on a stack of
     // the size an ordinary main thread has
     let stack = if runner::unoptimised_build() && id.as_deref() == Some("C06") { 8 << 20 } else { runner::STACK_BYTES };
+    runner::STACK_USED.store(stack, std::sync::atomic::Ordering::Relaxed);
     let h = std::thread::Builder::new()
         .stack_size(stack)
         .spawn(real_main)
